@@ -318,15 +318,15 @@ Definition returned_in (so : sobs) : list Z :=
   flat_map (fun e => match e with HReturn c => [c] | _ => [] end) (so_hev so).
 
 (* the trailer is on the wire at the quiescent point that follows the handler's return; in a run with back-pressure
-   on the server's Writes (steps KSBlock) it is on the wire by the end of the run (the scenarios release the
-   back-pressure) *)
+   on the server's Writes or a held return path (steps KSBlock) it is on the wire by the end of the run (the scenarios
+   release it), unless the caller's reset was written at any time: the trailer is offered only after the release *)
 Definition trailer_ok (steps : list step) (c2s s2c : list penv) (ids : list Z) : bool :=
   let blocked := existsb (fun st => match st_kind st with KSBlock => true | _ => false end) steps in
   forallb (fun st =>
              forallb (fun c =>
                         let i := id_of ids c in
                         let so := st_so st in
-                        if so_serve so || (0 <? count_rst i (zfirstn (so_wc so) c2s)) then true
+                        if so_serve so || (0 <? count_rst i (if blocked then c2s else zfirstn (so_wc so) c2s)) then true
                         else existsb is_trailer (proj i (if blocked then s2c else zfirstn (so_ws so) s2c)))
                      (returned_in (st_so st)))
           steps.
